@@ -125,7 +125,7 @@ def parse_guard(src):
             raise Bad()
         return e, None
     except Bad:
-        return "(GUnknown %s)" % cstr(src.strip()[:120]), "SetOSType guard not recognised: " + src.strip()[:120]
+        return "GUnknown", "SetOSType guard not recognised: " + src.strip()[:120]
 
 
 RUNE = {"'/'": 47, "'\\\\'": 92}
@@ -200,7 +200,7 @@ def translate():
              ";\n   ".join("(%s, (%d, %d)%%N)" % (cstr(n), c, v) for n, (c, v) in sorted(consts.items())))
 
     # ---- ostype.go ---------------------------------------------------------------------------
-    shape = {"unk": "false", "guard": "(GUnknown %s)" % cstr("SetOSType not found"), "asg": "false", "sd": 0, "sw": 0}
+    shape = {"unk": "false", "guard": "GUnknown", "asg": "false", "sd": 0, "sw": 0}
     try:
         src = strip_comments(rd("ostype.go"))
         fn = [f for f in functions(src) if f["recv"] == "OSTypeFn" and f["name"] == "SetOSType"]
